@@ -1020,6 +1020,63 @@ func gcFlagTrial(r *vh.Run, bin string, i int) {
 	}
 }
 
+// gcDisabledTrial: "--gc-frequency -1" is documented as "disable garbage collection" (serve's help and the field
+// comment).  A server started that way with a short grace period, untagged collection on: an unreferenced blob and an
+// untagged manifest stay - while the server runs and the repository sits idle for several grace periods, and across
+// a SIGTERM and a restart with the same flags.  One-sided: waiting longer only gives a collection more chances.
+func gcDisabledTrial(r *vh.Run, bin string, i int) {
+	st := []string{"dir", "mem"}[i%2]
+	root := r.TempDir("c19d")
+	defer vh.RemoveAll(root)
+	wit := map[string]any{"trial": i, "store_type": st}
+	args := []string{"--dir", root, "--store-type", st, "--gc-frequency", []string{"-1s", "-1ns", "-15m"}[(i/2)%3], "--gc-grace-period", "150ms", "--gc-untagged"}
+	wit["args"] = strings.Join(args, " ")
+	p, err := launch(bin, args...)
+	if err != nil {
+		r.Inconclusive("binary did not start: " + err.Error())
+		return
+	}
+	b := []byte(fmt.Sprintf("unreferenced blob %d", i))
+	d := vh.DigestOf("sha256", b)
+	cfg := &vh.Blob{Name: "c", B: b, D: d}
+	mm := vh.MkImage("untagged", "sha256", vh.MTImage, cfg, vh.MTConfig, nil, "", "", map[string]string{"n": fmt.Sprint(i)})
+	s1, _, _, _ := p.req("POST", "/v2/d/blobs/uploads/?digest="+d, nil, b)
+	s2, _, _, _ := p.req("PUT", "/v2/d/manifests/"+mm.D, map[string]string{"Content-Type": mm.MT}, mm.Raw)
+	b2 := []byte(fmt.Sprintf("second unreferenced blob %d", i))
+	d2 := vh.DigestOf("sha256", b2)
+	s3, _, _, _ := p.req("POST", "/v2/d/blobs/uploads/?digest="+d2, nil, b2)
+	if s1 != 201 || s2 != 201 || s3 != 201 {
+		p.kill()
+		r.Inconclusive(fmt.Sprintf("gcDisabledTrial: pushes answered %d %d %d", s1, s2, s3))
+		return
+	}
+	check := func(p *proc, when string) bool {
+		for _, q := range []struct{ what, url string }{{"unreferenced blob", "/v2/d/blobs/" + d2}, {"untagged manifest", "/v2/d/manifests/" + mm.D}, {"its config", "/v2/d/blobs/" + d}} {
+			st, _, _, err := p.req("HEAD", q.url, map[string]string{"Accept": vh.AcceptAll}, nil)
+			if err == nil && st != 200 {
+				wit["when"], wit["lost"] = when, q.what
+				r.Violation("gc-disabled:content-collected", fmt.Sprintf("serve %s: the %s is gone (%d) %s - garbage collection was disabled with a negative --gc-frequency", wit["args"], q.what, st, when), wit)
+				return false
+			}
+		}
+		return true
+	}
+	time.Sleep(700 * time.Millisecond) // several grace periods of idleness
+	ok := check(p, "while the server runs, after the repository sat idle for several grace periods")
+	exited, _ := p.term(30 * time.Second)
+	r.Count("gc_disabled_trials", 1)
+	r.Distinct("cells", "gc-disabled/"+st)
+	if !ok || !exited || st == "mem" {
+		return
+	}
+	p2, err := launch(bin, args...)
+	if err != nil {
+		return
+	}
+	defer p2.term(20 * time.Second)
+	check(p2, "after SIGTERM and a restart with the same flags")
+}
+
 func main() {
 	r := vh.Start()
 	bin := os.Getenv("VERIF_OLAREG")
@@ -1042,6 +1099,9 @@ func main() {
 	ngc := r.N(8, 64)
 	vh.Parallel(ngc, 4, func(i int) { gcFlagTrial(r, bin, i) })
 	r.Require("gc_flag_trials", int64(ngc/2))
+	ngd := r.N(6, 60)
+	vh.Parallel(ngd, 3, func(i int) { gcDisabledTrial(r, bin, i) })
+	r.Require("gc_disabled_trials", int64(ngd/2))
 	r.Count("cases", nd+nt+nr+nbin+nsig)
 	r.Require("default_trials", int64(nd))
 	r.Require("inproc_table_trials", int64(nt*3/4))
@@ -1051,5 +1111,5 @@ func main() {
 	r.Require("acknowledged_pushes_verified", int64(nsig*5))
 	var _ = json.Marshal
 	var _ = rand.Int
-	r.Finish("(a) SetDefaults on random configurations (each pointer field nil/true/false, numeric fields zero / negative / explicit); (b) in-process behaviour table over all 32 switch combinations x {directory, memory}; (c) the built binary with random (thorough: all) switch combinations x store type x warning lists, probed over loopback HTTP; (d) rate limits 1/2/5/8 with bursts from a fresh address, an interleaved second address, X-Forwarded-For or RemoteAddr, window reset; (e) SIGTERM 5-255 ms into a 3-client push workload, in half of the trials with one more upload whose body straddles the signal, plus SIGTERM the moment the server answers its first request, an upload in flight, layout validation, restart, read-back of every acknowledged push; (f) the collection flags of serve: all 8 combinations of --gc-untagged / --gc-referrer-dangling / --gc-referrer-subject with grace off compared, after observed complete collections, with an in-process server given the equivalent config.Config on a copy of the directory; a case is one trial, distinct = (part, cell) combinations", "cases", "cells")
+	r.Finish("(a) SetDefaults on random configurations (each pointer field nil/true/false, numeric fields zero / negative / explicit); (b) in-process behaviour table over all 32 switch combinations x {directory, memory}; (c) the built binary with random (thorough: all) switch combinations x store type x warning lists, probed over loopback HTTP; (d) rate limits 1/2/5/8 with bursts from a fresh address, an interleaved second address, X-Forwarded-For or RemoteAddr, window reset; (e) SIGTERM 5-255 ms into a 3-client push workload, in half of the trials with one more upload whose body straddles the signal, plus SIGTERM the moment the server answers its first request, an upload in flight, layout validation, restart, read-back of every acknowledged push; (f) the collection flags of serve: all 8 combinations of --gc-untagged / --gc-referrer-dangling / --gc-referrer-subject with grace off compared, after observed complete collections, with an in-process server given the equivalent config.Config on a copy of the directory; (g) --gc-frequency negative (documented: collection disabled) with a 150 ms grace period: nothing is collected while the repository idles nor across SIGTERM and restart; a case is one trial, distinct = (part, cell) combinations", "cases", "cells")
 }
